@@ -10,7 +10,7 @@ Deadline invariant proved on the real `_heartbeat_timeout_loop`:
 With the model above this gives both directions of the property: 330 s of silence from any origin
 interrupt the wait (=> reset iff connected), and a response before the deadline moves it.
 """
-from pyvc.values import unmodelled as _unmodelled  # noqa: E402
+from pyvc.values import PyExc, unmodelled as _unmodelled  # noqa: E402
 from pyvc import aio, sym
 from pyvc.sym import And, Or, Not, Implies, ite
 from pyvc.vc import oset
@@ -42,6 +42,13 @@ class _Sock:
                 def run(it2):
                     w.event("call", name, list(a), dict(k), self.is_connected)
                     aio.suspend(it2, ("call", name))
+                    if name == "send":
+                        # by the contract of AirTouchSocket.send: accepted, or refused with one of its two documented errors
+                        # (closed meanwhile; ten unexpired messages held, e.g. buffered during an outage and not yet drained)
+                        kk = w.nondet(3, "send outcome")
+                        if kk:
+                            cls = self.h.get(SOCK + (":NotOpenError" if kk == 1 else ":QueueOverflowError"))
+                            raise PyExc(it2.instantiate(cls, [], {}))
                     return None
                 return aio.Awaitable(name, run)
             return Builtin("socket." + name, call)
@@ -242,7 +249,8 @@ def _truthy_at_deadline(h, sock, evs):
 
 
 @oset("heartbeat._heartbeat_loop", ["C08", "C02"], [M + "_heartbeat_loop", M + "_send_heartbeat_message"],
-      assumptions=["socket.send of the heartbeat message raises nothing while the socket is connected (open, queue not full)"],
+      assumptions=["socket.send by its contract: returns, or raises NotOpenError / QueueOverflowError; encoding errors cannot occur for the "
+                   "fixed heartbeat message (its codec contracts)"],
       trusted=["asyncio.gather(sleep(d), c) completes when both are done, i.e. not before d seconds"])
 def heartbeat_loop(h):
     if not h.symbolic:
